@@ -25,7 +25,7 @@ inductive Op (α : Type)
   | concat (w : Val α)                                 -- np.concatenate([v, w])
   | ravel
   | copy
-  | setRow (i : Int) (v : List α)                      -- r[i] = v           (|v| = row length)
+  | setRow (i : Int) (v : List α)                      -- r[i] = v           (|v| = row length, or |v| = 1 broadcast)
   | setRowSlice (i : Int) (a b : Option Int) (v : List α)   -- r[i, a:b] = v  (|v| = slice length)
   | setFlat (ix : Idx) (v : List α)                    -- f[ix] = v          (|v| = selection, or |v| = 1 broadcast)
   | append (v : List α)                                -- np.append(f, v)
@@ -80,7 +80,7 @@ def apply {α} : Val α → Op α → Option (Val α)
   | v, .copy => some v
   | .rag r, .setRow i v =>
     (normIdx r.length i).bind (fun p => (r[p]?).bind (fun row =>
-      if v.length = row.length then some (.rag (r.set p v)) else none))
+      (fitValues row.length v).map (fun vs => .rag (r.set p vs))))
   | .rag r, .setRowSlice i a b v =>
     (normIdx r.length i).bind (fun p => (r[p]?).bind (fun row =>
       let pos := sliceIdx row.length a b 1
